@@ -322,10 +322,16 @@ pub struct MSeg {
     /// commands held: max cuts first .. first + ncmds (ncmds = 0: `get_command` finds nothing)
     pub first: u64,
     pub ncmds: u64,
+    pub prior: Prior<Location>,
+    pub skips: [Location; 2],
+    pub nskips: usize,
 }
 impl MSeg {
     pub fn any() -> Self {
-        Self { head: fresh_id(), at: any_loc(), facts_tag: kani::any(), facts_fail: kani::any(), first: 0, ncmds: 0 }
+        Self::holding(fresh_id(), any_loc(), kani::any(), kani::any(), 0, 0)
+    }
+    pub fn holding(head: CmdId, at: Location, facts_tag: u8, facts_fail: bool, first: u64, ncmds: u64) -> Self {
+        Self { head, at, facts_tag, facts_fail, first, ncmds, prior: Prior::None, skips: [loc(0, 0); 2], nskips: 0 }
     }
 }
 impl Segment for MSeg {
@@ -341,7 +347,7 @@ impl Segment for MSeg {
         PolicyId::new(0)
     }
     fn prior(&self) -> Prior<Location> {
-        Prior::None
+        self.prior
     }
     fn get_command(&self, l: Location) -> Option<MCmd> {
         let mc = l.max_cut.get();
@@ -362,7 +368,7 @@ impl Segment for MSeg {
         Ok(self.at.max_cut)
     }
     fn skip_list(&self) -> &[Location] {
-        &[]
+        &self.skips[..self.nskips]
     }
 }
 
@@ -478,13 +484,13 @@ impl Storage for MStorage {
     }
     fn get_segment(&self, l: Location) -> Result<MSeg, StorageError> {
         if self.seg_ncmds > 0 {
-            return Ok(MSeg { head: id_of(0), at: l, facts_tag: 0, facts_fail: false, first: self.seg_first, ncmds: self.seg_ncmds });
+            return Ok(MSeg::holding(id_of(0), l, 0, false, self.seg_first, self.seg_ncmds));
         }
         log(GET_SEGMENT, l.segment.get() as u8);
         if kani::any() {
             Err(any_serr())
         } else {
-            Ok(MSeg { head: fresh_id(), at: l, facts_tag: kani::any(), facts_fail: kani::any(), first: 0, ncmds: 0 })
+            Ok(MSeg::holding(fresh_id(), l, kani::any(), kani::any(), 0, 0))
         }
     }
     fn get_heads(&self) -> Result<&HeadSet, StorageError> {
@@ -649,5 +655,118 @@ impl Spill for NoSpill {
     }
     fn read_at(&mut self, _: usize, _: &mut [u8]) -> Result<(), StorageError> {
         Ok(())
+    }
+}
+
+// ------------------------------------------------------------ graph storage
+/// A small family of real graph SHAPES for the default `Storage::{is_ancestor, get_location_from}`
+/// searches (which this type does NOT override):
+///   seg 0 = init command            max cut 0
+///   seg 1 = X, lx commands          max cuts 1 ..= lx,           prior (0,0)
+///   seg 2 = B, lb commands          max cuts fork+1 ..= fork+lb, prior (1,fork)   — a branch off the MIDDLE of X
+/// with lx, lb, fork symbolic and B carrying a symbolic choice of the valid skip entries
+/// (first locations of segments on its own ancestry: (0,0) and (1,1)).
+pub struct GStorage {
+    pub lx: u64,
+    pub lb: u64,
+    pub fork: u64,
+    pub skip_init: bool,
+    pub skip_x: bool,
+    pub heads: HeadSet,
+}
+impl GStorage {
+    pub fn any() -> Self {
+        let g = Self { lx: kani::any(), lb: kani::any(), fork: kani::any(), skip_init: kani::any(), skip_x: kani::any(), heads: HeadSet::default() };
+        kani::assume(g.lx >= 1 && g.lx <= 40 && g.lb >= 1 && g.lb <= 40 && g.fork >= 1 && g.fork <= g.lx);
+        g
+    }
+    /// concrete lengths, symbolic skip entries
+    pub fn shape(lx: u64, fork: u64, lb: u64) -> Self {
+        Self { lx, lb, fork, skip_init: kani::any(), skip_x: kani::any(), heads: HeadSet::default() }
+    }
+    /// is (seg, mc) a command of the graph?
+    pub fn valid(&self, l: Location) -> bool {
+        let mc = l.max_cut.get();
+        match l.segment.get() {
+            0 => mc == 0,
+            1 => mc >= 1 && mc <= self.lx,
+            2 => mc > self.fork && mc <= self.fork + self.lb,
+            _ => false,
+        }
+    }
+    /// reference: a is a PROPER ancestor of b (by the definition of the shape)
+    pub fn proper_ancestor(&self, a: Location, b: Location) -> bool {
+        let (sa, ma, sb, mb) = (a.segment.get(), a.max_cut.get(), b.segment.get(), b.max_cut.get());
+        if sa == sb {
+            return ma < mb;
+        }
+        match (sa, sb) {
+            (0, _) => true,
+            (1, 2) => ma <= self.fork,
+            _ => false,
+        }
+    }
+    fn seg(&self, i: u64) -> MSeg {
+        let mut s = match i {
+            0 => MSeg::holding(id_of(0), loc(0, 0), 0, false, 0, 1),
+            1 => MSeg::holding(id_of(self.lx as u8), loc(1, self.lx), 0, false, 1, self.lx),
+            _ => MSeg::holding(id_of((self.fork + self.lb) as u8), loc(2, self.fork + self.lb), 0, false, self.fork + 1, self.lb),
+        };
+        match i {
+            0 => {}
+            1 => s.prior = Prior::Single(loc(0, 0)),
+            _ => {
+                s.prior = Prior::Single(loc(1, self.fork));
+                // skip list sorted by max cut ascending
+                if self.skip_init {
+                    s.skips[s.nskips] = loc(0, 0);
+                    s.nskips += 1;
+                }
+                if self.skip_x {
+                    s.skips[s.nskips] = loc(1, 1);
+                    s.nskips += 1;
+                }
+            }
+        }
+        s
+    }
+}
+impl Storage for GStorage {
+    type Perspective = MPersp;
+    type FactPerspective = MPersp;
+    type Segment = MSeg;
+    type FactIndex = MFI;
+    fn get_linear_perspective(&self, _: Location) -> Result<MPersp, StorageError> {
+        Err(StorageError::IoError)
+    }
+    fn get_fact_perspective(&self, _: Location) -> Result<MPersp, StorageError> {
+        Err(StorageError::IoError)
+    }
+    fn new_merge_perspective(&self, _: Location, _: Location, _: Location, _: PolicyId, _: MFI) -> Result<MPersp, StorageError> {
+        Err(StorageError::IoError)
+    }
+    fn get_segment(&self, l: Location) -> Result<MSeg, StorageError> {
+        if l.segment.get() > 2 {
+            return Err(StorageError::SegmentOutOfBounds(l));
+        }
+        Ok(self.seg(l.segment.get()))
+    }
+    fn get_heads(&self) -> Result<&HeadSet, StorageError> {
+        Ok(&self.heads)
+    }
+    fn heads_offset(&self) -> Result<HeadSetOffset, StorageError> {
+        Ok(HeadSetOffset::new(0))
+    }
+    fn fact_cache(&self) -> Result<MFI, StorageError> {
+        Ok(MFI(0))
+    }
+    fn commit_heads(&mut self, _: HeadSet, _: MFI) -> Result<(), StorageError> {
+        Err(StorageError::IoError)
+    }
+    fn write(&mut self, _: MPersp) -> Result<MSeg, StorageError> {
+        Err(StorageError::IoError)
+    }
+    fn write_facts(&mut self, _: MPersp) -> Result<MFI, StorageError> {
+        Err(StorageError::IoError)
     }
 }
